@@ -828,6 +828,10 @@ class PiecewiseExponentialCoalescentGrid(Distribution):
         indices_internals = indices_grid_heights[event_mask_sorted == -1].reshape(
             internal_heights.shape
         )
+        # coalescent times in the same (sorted) order as indices_internals
+        internal_heights = grid_heights_sorted[event_mask_sorted == -1].reshape(
+            internal_heights.shape
+        )
 
         grid0 = torch.cat((torch.zeros(batch_shape + (1,)), grid), -1)
         grid_intervals = grid0[..., 1:] - grid0[..., :-1]
